@@ -57,6 +57,13 @@ def cfg_text(sc, switches, faults=True, max_ops=5, prune_batch=1, mbt=False, inv
     return "\n".join(lines) + "\n", c
 
 
+def engine(ctx, binary, test, payload, timeout=3000):
+    res = ctx.run_engine(binary, test, payload, timeout=timeout)
+    if res.get("stats", {}).get("machinery_error"):
+        raise vlib.Broken("engine %s: %s\n%s" % (test, res["stats"]["machinery_error"], res.get("_stdout", "")[-2000:]))
+    return res
+
+
 def run(ctx):
     binary = ctx.build_engine("crash")
     if ctx.replay:
@@ -69,7 +76,7 @@ def run(ctx):
     thorough = not ctx.quick()
 
     # ---- which of the known defects does this tree still have? (the spec models the code as it is)
-    probe = ctx.run_engine(binary, "TestCrashProbe", {}, timeout=900)
+    probe = engine(ctx, binary, "TestCrashProbe", {}, timeout=900)
     faithful = {s: bool(probe.get("stats", {}).get(s, False)) for s in SWITCHES}
     repaired = {s: True for s in SWITCHES}
     ctx.coverage["switches_probed_on_code"] = faithful
@@ -108,19 +115,21 @@ def run(ctx):
             bs = ctx.tlc_simulate("chain", "CrashMBT.tla", "sim.cfg", depth=16 * want, seed=ctx.seed * 100 + i,
                                   files={"sim.cfg": txt}, timeout=900, max_behaviours=want)
             total_conf += len(bs)
-            res = ctx.run_engine(binary, "TestCrashConform",
+            res = engine(ctx, binary, "TestCrashConform",
                                  {"consts": c, "behaviours": bs, "newState": new_state[sc], "backends": backends[sc],
                                   "pruneBatch": pb, "plain": False}, timeout=3000)
             ctx.absorb(res, "crash", "TestCrashConform")
+            vlib.log("engine TestCrashConform %s pb=%d: %d behaviours, %.0fs" % (sc, pb, len(bs), res["_wall_s"]))
             txt, c = cfg_text(sc, faithful, faults=False, mbt=True, prune_batch=pb)
             want = n_enum[sc] if pb == 1 else n_enum[sc] // 4
             bs = ctx.tlc_simulate("chain", "CrashMBT.tla", "ops.cfg", depth=12 * want, seed=ctx.seed * 100 + 50 + i,
                                   files={"ops.cfg": txt}, timeout=900, max_behaviours=want)
             total_enum += len(bs)
-            res = ctx.run_engine(binary, "TestCrashEnum",
+            res = engine(ctx, binary, "TestCrashEnum",
                                  {"consts": c, "behaviours": bs, "newState": new_state[sc], "backends": backends[sc],
                                   "pruneBatch": pb, "plain": False}, timeout=3000)
             ctx.absorb(res, "crash", "TestCrashEnum")
+            vlib.log("engine TestCrashEnum %s pb=%d: %d sequences, %.0fs" % (sc, pb, len(bs), res["_wall_s"]))
     ctx.coverage["behaviours_conformance"] = total_conf
     ctx.coverage["sequences_fault_enumerated"] = total_enum
     ctx.assumptions += [
